@@ -2,6 +2,12 @@
 """Writes seeded/<ID>-<X>/meta.json from the sub-agent's agent_meta.json, my notes below and seeded/matrix.tsv."""
 import json,os,glob
 NOTES={
+ "C02-J":"eighth (mini) round; caught at once (token-class enumeration: `..` followed by a discard name in pattern context)",
+ "C08-J":"eighth (mini) round; caught at once (rename is sent for every occurrence, in dependency files too, and compared with prepare-rename)",
+ "C14-J":"eighth (mini) round; caught at once (all ordered boundary pairs: ranges ending right behind a line break)",
+ "C17-J":"eighth (mini) round; caught at once (dependency file opened first)",
+ "C19-J":"eighth (mini) round; NOT judged: a range request that starts right behind an identifier also returns that identifier's token. LSP 3.17 allows a server to compute tokens for a broader range than requested (they must be complete and correct), so the oracle is: everything inside the range is there, nothing that the whole-file answer lacks - which this change satisfies",
+
  "C13-I":"seventh (mini) round; caught at once (edge-of-class alphabet: U+0800)",
  "C06-I":"seventh (mini) round; first missed (labels were either common fields or unique to one variant); caught since the chain workspaces have `Shape { Circle(size) Square(size) Dot }`: references of one variant's `size` must not list the other's",
  "C07-I":"seventh (mini) round; first missed (no label shared by all variants with different types); caught since `Val { Number(value: Int) Word(value: String) }` in the chain workspaces, with per-variant ground truth",
@@ -86,7 +92,7 @@ if os.path.exists(p):
         f=line.rstrip('\n').split('\t')
         if len(f)<3: matrix[f[0]]={"error":f[1] if len(f)>1 else ""}; continue
         matrix[f[0]]={kv.split('=')[0]:int(kv.split('=')[1]) for kv in f[1:]}
-for p2 in ('/verif/seeded/round2.tsv','/verif/seeded/round3.tsv','/verif/seeded/round4.tsv','/verif/seeded/round5.tsv','/verif/seeded/round6.tsv','/verif/seeded/round7.tsv'):
+for p2 in ('/verif/seeded/round2.tsv','/verif/seeded/round3.tsv','/verif/seeded/round4.tsv','/verif/seeded/round5.tsv','/verif/seeded/round6.tsv','/verif/seeded/round7.tsv','/verif/seeded/round8.tsv'):
   if os.path.exists(p2):
     for line in open(p2):
         f=line.rstrip('\n').split('\t')
